@@ -1968,6 +1968,53 @@ func paren(s string) string {
 	return s
 }
 
+// sentinelFacts: the package-level error variables of /repo/cvsserr and how each is initialised.  The translation reads
+// `errs.Wrap(cvsserr.ErrX, …)` as the constructor `.x` of the model's `Err` and `errs.Is` as equality of constructors: that is sound when
+// every sentinel is its own `errors.New(…)` value (two names for one value, or a sentinel that wraps another, would make errors.Is answer
+// true across constructors).  Props/SrcDec.lean proves that the list is the model's vocabulary and that every entry is "new".
+func sentinelFacts(dir string) string {
+	type ent struct{ name, how, msg string }
+	var ents []ent
+	pkgs, err := parser.ParseDir(token.NewFileSet(), dir, buildOK(dir), 0)
+	if err == nil {
+		for _, pk := range pkgs {
+			for _, f := range pk.Files {
+				for _, d := range f.Decls {
+					gd, ok := d.(*ast.GenDecl)
+					if !ok || gd.Tok != token.VAR {
+						continue
+					}
+					for _, sp := range gd.Specs {
+						vs := sp.(*ast.ValueSpec)
+						for i, n := range vs.Names {
+							e := ent{name: n.Name, how: "other"}
+							if len(vs.Values) == len(vs.Names) {
+								if c, ok := vs.Values[i].(*ast.CallExpr); ok && len(c.Args) == 1 {
+									if se, ok := c.Fun.(*ast.SelectorExpr); ok && namedOf(se.X) == "errors" && se.Sel.Name == "New" {
+										if bl, ok := c.Args[0].(*ast.BasicLit); ok && bl.Kind == token.STRING {
+											if m, err := strconv.Unquote(bl.Value); err == nil {
+												e.how, e.msg = "new", m
+											}
+										}
+									}
+								}
+							}
+							ents = append(ents, e)
+						}
+					}
+				}
+			}
+		}
+	}
+	sort.Slice(ents, func(i, j int) bool { return ents[i].name < ents[j].name })
+	var l []string
+	for _, e := range ents {
+		l = append(l, fmt.Sprintf("(%q, %q, %s)", e.name, e.how, bytesLit(e.msg)))
+	}
+	return "namespace CvssVerif.Gen.Errs\nopen CvssVerif\n\n-- @def sentinels\n/-- the package-level variables of /repo/cvsserr: name, \"new\" when the initialiser is `errors.New(<string literal>)`, the message -/\n" +
+		"def sentinels : List (String × String × Bytes) := [" + strings.Join(l, ",\n  ") + "]\n\nend CvssVerif.Gen.Errs\n"
+}
+
 func main() {
 	if len(os.Args) != 3 && len(os.Args) != 4 {
 		fmt.Fprintln(os.Stderr, "usage: decoders <repo> <out.lean> [reference.lean]")
@@ -2088,6 +2135,7 @@ func main() {
 		fmt.Fprintf(&b, "-- @def markSites\n/-- every `x.names[k] = true` of the source: the struct (level) whose map is written and the metric name k is known to be\n    at that point; each must be the name of a metric of that level (proved in Proofs/Decoders.lean) -/\ndef markSites : List (Level × Bytes) := [%s]\n\n", strings.Join(ml, ", "))
 		fmt.Fprintf(&b, "end CvssVerif.Gen.%s\n\n", ns)
 	}
+	b.WriteString(sentinelFacts(filepath.Join(repo, "cvsserr")))
 	if !fatal {
 		if err := os.WriteFile(out, []byte(b.String()), 0o644); err != nil {
 			fmt.Fprintln(os.Stderr, err)
